@@ -3,7 +3,7 @@ Model of krill's CA status store and of the way the CA manager drives it.
 
 Code modelled (line numbers of /repo at the time of writing):
 * `src/api/ca.rs`            `ParentStatus` 1111-1178, `RepoStatus` 1185-1256 (`update_published`
-                             1217-1244, three arms exactly as written), `ChildStatus` 1448-1501,
+                             1217-1245, three arms exactly as written), `ChildStatus` 1448-1501,
                              `ParentExchange`, `ExchangeResult`, `ChildExchange::is_krill_above_0_9_1`
 * `src/server/ca/status.rs`  `CaStatusStore`: cache + key-value store, `warm`/`load_full_status`,
                              `update_repo_status`, `update_ca_parent_status`, `update_ca_child_status`,
@@ -110,12 +110,18 @@ def RepoStatus.setFailure (s : RepoStatus) (uri err : String) (now : Nat) : Repo
 def RepoStatus.setLastUpdated (s : RepoStatus) (uri : String) (now : Nat) : RepoStatus :=
   { s with lastExchange := some ⟨now, uri, .success⟩, lastSuccess := some now }
 
-/-- One arm of the `match element` in `update_published` (ca.rs:1226-1240).  The `Publish`
-arm pushes without removing an entry of the same URI. -/
+/-- One arm of the `match element` in `update_published` (ca.rs:1226-1241).  Since 7b4aa6c7 the
+`Publish` arm removes an entry of the same URI before it pushes, like the `Update` arm. -/
 def applyEl (p : List File) : DeltaEl → List File
-  | .publish u c => p ++ [(u, c)]
+  | .publish u c => p.filter (fun e => e.1 != u) ++ [(u, c)]
   | .update u c => p.filter (fun e => e.1 != u) ++ [(u, c)]
   | .withdraw u => p.filter (fun e => e.1 != u)
+
+/-- The `Publish` arm of the pinned tree (before 7b4aa6c7): a push without the `retain`.  Only used
+for the labelled counter-model in `Props/C19.lean`. -/
+def applyElPinned (p : List File) : DeltaEl → List File
+  | .publish u c => p ++ [(u, c)]
+  | el => applyEl p el
 
 def applyDelta (p : List File) (d : List DeltaEl) : List File := d.foldl applyEl p
 
@@ -332,8 +338,10 @@ inductive Ev where
   | repoDelta (ca uri : String) (delta : List DeltaEl) (reply : Except String Unit) (now : Nat)
   /-- `get_entitlements_from_contact`: a failure is only recorded for an existing parent. -/
   | parentList (ca p uri : String) (existing : Bool) (reply : Except String Entitlements) (now : Nat)
-  /-- `send_revoke_requests` with `sent` revocation requests (also with no request at all, and
-  then without talking to the parent: success). -/
+  /-- `send_revoke_requests` with `sent` revocation requests.  With no request at all it records a
+  success without talking to the parent; since 0cf51f5b `ca_sync_parent` no longer calls it then,
+  only the best-effort revocation of `ca_parent_remove` / `delete_ca` can (and removes the entry
+  right afterwards). -/
   | parentRevokes (ca p uri : String) (sent : Nat) (reply : Except String Unit) (now : Nat)
   /-- `send_cert_requests_handle_responses`: `err` iff `errors` is not empty. -/
   | parentCerts (ca p uri : String) (reply : Except String Unit) (now : Nat)
@@ -450,6 +458,9 @@ def Ev.parentAnswered (e : Ev) (ca p : String) : Bool :=
   | .parentRevokes _ _ _ sent _ _ => e.parentSuccess ca p && decide (sent > 0)
   | _ => e.parentSuccess ca p
 
+/-- A recorded "success" without an answer of the parent. -/
+def Ev.vacuousSuccess (e : Ev) (ca p : String) : Bool := e.parentSuccess ca p && !(e.parentAnswered ca p)
+
 /-- A successful list query to parent `p` of `ca` (the only exchange that returns entitlements). -/
 def Ev.parentListSuccess (e : Ev) (ca p : String) : Bool :=
   match e with
@@ -520,15 +531,23 @@ def repoSyncEvents (ca uri : String) (embedded : Bool) (server : Option (List Fi
       | some m' => ([.repoList ca uri (.ok ()) now, .repoDelta ca uri d (.ok ()) now], some m')
       | none => ([.repoList ca uri (.ok ()) now, .repoDelta ca uri d (.error deltaErr) now], some m)
 
-/-- `ca_sync_parent`: with pending requests first the revocations, then (only if those went
-through) the certificate requests; otherwise one list query. -/
+/-- `ca_sync_parent`: with pending requests first the revocations – skipped altogether when there
+is nothing to revoke (0cf51f5b: no exchange, no status) –, then (only if those went through) the
+certificate requests; otherwise one list query. -/
 def syncParentEvents (ca p uri : String) (pending : Bool) (nRevokes : Nat)
     (revokes certs : Except String Unit) (list : Except String Entitlements) (now : Nat) : List Ev :=
   if pending then
-    match revokes with
-    | .error e => [.parentRevokes ca p uri nRevokes (.error e) now]
-    | .ok () => [.parentRevokes ca p uri nRevokes (.ok ()) now, .parentCerts ca p uri certs now]
+    if nRevokes = 0 then [.parentCerts ca p uri certs now]
+    else match revokes with
+      | .error e => [.parentRevokes ca p uri nRevokes (.error e) now]
+      | .ok () => [.parentRevokes ca p uri nRevokes (.ok ()) now, .parentCerts ca p uri certs now]
   else [.parentList ca p uri true list now]
+
+/-- `ca_parent_remove` (and, per parent, `delete_ca`): best-effort revocation of the `nKeys` keys
+under the parent, then the entry is removed. -/
+def parentRemoveEvents (ca p uri : String) (nKeys : Nat) (revokes : Except String Unit) (now : Nat) :
+    List Ev :=
+  [.parentRevokes ca p uri nKeys revokes now, .parentRemove ca p]
 
 /-- A provisioning request arriving at `parent` from `child`.
 * remote (`rfc6492`): `verify_rfc6492` refuses an unknown child or a signature that does not
